@@ -37,7 +37,7 @@ Qed.
 Lemma step_DI s o : SI c s -> DI s -> DI (fst (step c s o)).
 Proof.
   intros [_ Hkh] [Hnd Hd].
-  assert (Grow : forall (f : list (N * list Z) -> list (N * list Z)),
+  assert (Grow : forall (f : list (N * list xnum) -> list (N * list xnum)),
             (forall x, In x (map fst (pend s)) -> In x (map fst (f (pend s)))) -> DI (upd_pend s f)).
   { intros f Hf. split; [exact Hnd|]. intros p Hp. destruct (Hd p Hp) as (j' & kj' & Hin & Hrest). exists j', kj'. cbn. split; [apply Hf; exact Hin|exact Hrest]. }
   destruct o as [j|j v|j v|j v|j v|j v|j b|j v|dk n u t| |]; cbn [step op_index];
